@@ -113,6 +113,7 @@ MMP_CONFIG = dict(name='ext4-1k-mmp', fstype='ext4', bs=1024, blocks=8193, featu
 def config_by_name(n):
     for c in CONFIGS:
         if c['name'] == n: return c
+    if n == MMP_CONFIG['name']: return MMP_CONFIG      # not in CONFIGS (every tool run on it sleeps for seconds): only for the checks that ask for it by name
     raise KeyError(n)
 
 def mk_config(tools, img, cfg, env=None):
